@@ -2,6 +2,10 @@
 
 package diff
 
+import "golang.org/x/tools/go/ssa"
+
 // Verification hooks (see /verif/MANIFEST.json "hooks"); no-ops unless built with -tags verif.
 
 func verifCountEquivalence() {}
+
+func verifTraceEquivalence(z *Zipper, a, b ssa.Instruction, eq bool) {}
